@@ -313,7 +313,7 @@ fn one_case(seed: u64, i: u64, thorough: bool, rep: &mut Report, rt: &mut tokio:
 }
 
 pub fn run(a: &Args) -> Report {
-    let n = a.n(240, 3000);
+    let n = a.n(1500, 6000);
     let seed = a.seed;
     let thorough = a.thorough;
     let only: Option<u64> = a.sub.as_ref().and_then(|s| s.strip_prefix("only=").and_then(|x| x.parse().ok()));
